@@ -148,6 +148,41 @@ var profC07 = Profile{
 	MultiOut: true, FanIn: true, FanOut: true, Cores: true, TwoSources: true, Zip: true, Sinkless: true,
 }
 
+// releaseWaveWF: a wide task (k-1 of k slots) is known to be executing - it
+// rendezvous with a one-core "gate" task - when the gate's k outputs make k
+// one-core tasks ready that rendezvous among themselves. At most one of them
+// fits next to the wide task; when the wide task returns its k-1 slots in one
+// go, all waiting ones fit together and must all be admitted - completion is
+// impossible otherwise. (No task of the group can be ready before the wide
+// task holds all its slots, so no partial acquisition can interfere.)
+func releaseWaveWF(c *Case) *WF {
+	t := c.Tape
+	w := &WF{Name: "wf", Sources: map[string]string{}}
+	k := 3 + t.Choose(simrt.StGen, 3, 0)
+	sb := srcNode(w, "srcbig", 1, "")
+	sg := srcNode(w, "srcgate", 1, "")
+	addNode(w, Node{Name: "big", Kind: KProc, Cores: k - 1, BGroup: "grp",
+		Ins:    []InSpec{{Name: "a", From: []Edge{{sb, "out"}}}},
+		Params: []ParamSpec{{Name: "grp", Vals: []string{"g1"}}},
+		Outs:   []OutSpec{{Name: "o0", Pattern: "{i:a}.big.o0"}}})
+	gate := Node{Name: "gate", Kind: KProc, Cores: 1, BGroup: "grp",
+		Ins:    []InSpec{{Name: "a", From: []Edge{{sg, "out"}}}},
+		Params: []ParamSpec{{Name: "grp", Vals: []string{"g1"}}}}
+	var from []Edge
+	gi := len(w.Nodes)
+	for i := 0; i < k; i++ {
+		gate.Outs = append(gate.Outs, OutSpec{Name: fmt.Sprintf("o%d", i), Pattern: fmt.Sprintf("{i:a}.gate.o%d", i)})
+		from = append(from, Edge{gi, fmt.Sprintf("o%d", i)})
+	}
+	addNode(w, gate)
+	addNode(w, Node{Name: "small", Kind: KProc, Cores: 1, Barrier: k,
+		Ins:  []InSpec{{Name: "a", From: from}},
+		Outs: []OutSpec{{Name: "o0", Pattern: "{i:a}.small.o0"}}})
+	w.MaxTasks = k
+	w.Bufsize = []int{0, 1, 2}[t.Choose(simrt.StGen, 3, 0)]
+	return w
+}
+
 // staggeredWF: one process, n one-core tasks, two of which (the first and a
 // later one, further apart than slots allow at once) rendezvous: as soon as
 // the tasks in between have released their slots the later one fits next to
@@ -178,14 +213,17 @@ func staggeredWF(c *Case) *WF {
 
 func init() {
 	Register(&Check{ID: "C07", Level: "exploration",
-		Rule: "three kinds of cases, tape-chosen: (a) barrier waves: groups of k tasks x c cores that fit the slots together, each command blocking until k commands of its group are inside the barrier - completion is possible only if they really run simultaneously, otherwise the simulator reports the deadlock (no time-outs); (b) mixed-core contention: generated workflows with cores 1..max competing token by token (every deposit and the mutex are scheduling points); (c) a process with CoresPerTask > max must be rejected: exit!=0, no hang, none of its commands executed. distinct = event-log hash; non-trivial = >=2 tasks executed (a,b) or the rejection (c), and >=1 non-default choice",
+		Rule: "three kinds of cases, tape-chosen: (a) barrier waves: groups of k tasks x c cores that fit the slots together, each command blocking until k commands of its group are inside the barrier - completion is possible only if they really run simultaneously, otherwise the simulator reports the deadlock (no time-outs); variants: a staggered rendezvous beyond the first wave, and a release wave (k one-core tasks become ready while a task holding k-1 of the k slots is known to execute; when it returns its slots at once all of them must be admitted); (b) mixed-core contention: generated workflows with cores 1..max competing token by token (every deposit and the mutex are scheduling points); (c) a process with CoresPerTask > max must be rejected: exit!=0, no hang, none of its commands executed. distinct = event-log hash; non-trivial = >=2 tasks executed (a,b) or the rejection (c), and >=1 non-default choice",
 		Run: func(c *Case) Verdict {
 			kind := c.Tape.Choose(simrt.StGen, 3, 0)
 			switch kind {
 			case 0:
 				w := barrierWF(c)
-				if c.Tape.Choose(simrt.StGen, 3, 0) == 1 {
+				switch c.Tape.Choose(simrt.StGen, 4, 0) {
+				case 1:
 					w = staggeredWF(c)
+				case 2:
+					w = releaseWaveWF(c)
 				}
 				c.Sample = "barrier: " + sample(w)
 				ex := Eval(w)
